@@ -31,6 +31,7 @@ namespace c18
     std::vector<std::vector<int>> cells;   // local vertex lists, feat3 reference numbering
     bool affine = true;                    // every cell transformation is affine
     bool shared_facet = false;             // at least two cells share a facet
+    int components = 1;                    // connected components of the cell graph (cells adjacent via a common vertex)
     J js = J::obj();
     std::vector<std::string> labels;
   };
@@ -251,6 +252,15 @@ namespace c18
       }
       for(auto& kv : fc) if(kv.second >= 2) m.shared_facet = true;
     }
+    // connected components (union-find over cells sharing a vertex)
+    {
+      std::vector<int> par(m.cells.size()); std::iota(par.begin(), par.end(), 0);
+      std::function<int(int)> find = [&](int x) { while(par[(size_t)x] != x) { par[(size_t)x] = par[(size_t)par[(size_t)x]]; x = par[(size_t)x]; } return x; };
+      std::vector<int> first(m.vtx.size(), -1);
+      for(size_t cc = 0; cc < m.cells.size(); ++cc) for(int v : m.cells[cc]) { if(first[(size_t)v] < 0) first[(size_t)v] = (int)cc; else par[(size_t)find((int)cc)] = find(first[(size_t)v]); }
+      std::set<int> roots; for(size_t cc = 0; cc < m.cells.size(); ++cc) roots.insert(find((int)cc));
+      m.components = (int)roots.size();
+    }
     // description
     m.js.set("shape", simplex ? (dim == 2 ? "tria" : "tetra") : (dim == 2 ? "quad" : "hexa"));
     { J g = J::arr(); for(int r = 0; r < dim; ++r) g.add(n[r]); m.js.set("grid", g); }
@@ -268,6 +278,7 @@ namespace c18
     m.labels.push_back(std::string("cells:") + (m.cells.size() == 1 ? "1" : m.cells.size() <= 4 ? "2-4" : m.cells.size() <= 16 ? "5-16" : ">16"));
     m.labels.push_back(std::string("geo:") + (jr > 0 ? ((geo == 3) ? "affine+jitter" : "jitter") : ((geo == 1 || geo == 3) ? "affine" : "unit")));
     if(holes && mask.find('0') != std::string::npos) m.labels.push_back("mesh:holes");
+    if(m.components > 1) { m.labels.push_back("mesh:disconnected"); m.js.set("components", m.components); }
     if(any_or) m.labels.push_back("mesh:reoriented");
     if(vcls || ccls) m.labels.push_back("mesh:renumbered");
     if(simplex && dim == 3) m.labels.push_back(split == 0 ? "split:kuhn6" : "split:alt5");
